@@ -2,6 +2,7 @@
 package c05
 
 import (
+	"fmt"
 	"sync/atomic"
 	"testing"
 
@@ -28,6 +29,17 @@ func gen(t *rapid.T) peng.Case {
 		// nodes, two connections): replies arrive under the ids of the configuration that was called
 		c.AliasCfg = rapid.SliceOfN(rapid.Bool(), len(c.Configs), len(c.Configs)).Draw(t, "aliasCfg")
 	}
+	if rapid.IntRange(0, 3).Draw(t, "cut") == 0 {
+		// the connections to a server break underneath it (it keeps listening): replies that were on
+		// their way are lost, the calls issued afterwards go over new streams
+		k := rapid.IntRange(1, 3).Draw(t, "ncut")
+		for i := 0; i < k; i++ {
+			op := peng.Op{Kind: "cut", Thread: rapid.IntRange(0, c.Threads-1).Draw(t, fmt.Sprintf("cutThread%d", i)),
+				Call: scen.CallSpec{Node: rapid.IntRange(0, c.N-1).Draw(t, fmt.Sprintf("cutNode%d", i))}}
+			at := rapid.IntRange(0, len(c.Ops)).Draw(t, fmt.Sprintf("cutAt%d", i))
+			c.Ops = append(c.Ops[:at], append([]peng.Op{op}, c.Ops[at:]...)...)
+		}
+	}
 	c.GoMaxProcs = rapid.SampledFrom([]int{0, 0, 2, 4}).Draw(t, "gomaxprocs")
 	c.Jitter = peng.GenJitter(t)
 	return c
@@ -48,6 +60,9 @@ func run(c peng.Case) vt.Verdict {
 			break
 		}
 	}
+	if r.Cuts > 0 {
+		classes = append(classes, "connection-cut")
+	}
 	if len(r.Clients) > 0 && atomic.LoadInt32(&r.Clients[0].SendsFailed) > 0 {
 		classes = append(classes, "injected-send-failure")
 	}
@@ -59,7 +74,7 @@ func run(c peng.Case) vt.Verdict {
 func TestProp(t *testing.T) {
 	vt.Main(t, vt.Spec[peng.Case]{
 		ID:           "C05",
-		Rule:         "rapid-generated concurrent programs: one or two client managers (their message ids collide), 3-6 servers, up to 4 overlapping configurations (in a quarter of the cases some of them register their servers a second time under other node ids - one address, two nodes), 2-8 threads issuing 6-60 calls of all kinds with unique tokens; handlers release at once and answer after generated delays up to 6 ms while calls carry cancellations/deadlines of 1 us - 5 ms (replies arrive long after the call ended), in a quarter of the cases one or two injected failures of single stream writes of the first manager (streams are re-created under calls in flight), in half of the cases seeded jitter at the statement-level yield points of the instrumented runtime; oracle: every reply shown to any quorum function and every RPC result carries the call's own token, sits under the node that produced it and equals what that handler produced (stamps: token, node, serial, payload hash), entries never change between invocations of non-streaming calls, no quorum function runs after its call returned; non-trivial (measured) = two calls overlapping in time on a shared node, or a reply produced after its call ended",
+		Rule:         "rapid-generated concurrent programs: one or two client managers (their message ids collide), 3-6 servers, up to 4 overlapping configurations (in a quarter of the cases some of them register their servers a second time under other node ids - one address, two nodes), 2-8 threads issuing 6-60 calls of all kinds with unique tokens; handlers release at once and answer after generated delays up to 6 ms while calls carry cancellations/deadlines of 1 us - 5 ms (replies arrive long after the call ended), in a quarter of the cases one or two injected failures of single stream writes of the first manager (streams are re-created under calls in flight), in a quarter one to three cuts of the connections to a server that keeps listening, in half of the cases seeded jitter at the statement-level yield points of the instrumented runtime; oracle: every reply shown to any quorum function and every RPC result carries the call's own token, sits under the node that produced it and equals what that handler produced (stamps: token, node, serial, payload hash), entries never change between invocations of non-streaming calls, no quorum function runs after its call returned; non-trivial (measured) = two calls overlapping in time on a shared node, or a reply produced after its call ended",
 		Gen:          gen,
 		Run:          run,
 		TrackCurrent: true,
